@@ -313,7 +313,11 @@ func genShareFamilies(static []string, thorough bool) {
 					emit(finalize(single(fmt.Sprintf("uniq:%s:%s.%s.%d", fam.name, strings.Join(sub, "+"), mode, k), 8, q, sos, "iverilog")))
 					if mode == "ha" && k == 1 && opOrderFamily {
 						// the same opcode set with the "Op" array in another order (loaded from JSON)
-						for _, ord := range []string{"rev", "rot"} {
+						orders := []string{"rev"}
+						if thorough {
+							orders = append(orders, "rot")
+						}
+						for _, ord := range orders {
 							t := finalize(single(fmt.Sprintf("oporder:%s:%s:%s", ord, fam.name, strings.Join(sub, "+")), 8, q, sos, "iverilog"))
 							t.OpOrder = ord
 							emit(t)
@@ -575,6 +579,84 @@ func dropClash(ops []string) []string {
 	return out
 }
 
+// genReqs: machines built WITH recorded requirement sets (destination / source registers per opcode,
+// recorded through the opcodes' own HLAssemblerNormalize as basm does) under every combination of the
+// hardware-optimisation flags, for every opcode whose templates consult those sets
+func genReqs(thorough bool) {
+	two := []string{"addf", "addf16", "addp", "cmpr", "cmprlt", "divf", "divf16", "divp", "multf", "multf16", "multp",
+		"addfps16f8", "multfps16f8", "divfps16f8", "addlqs8t1", "multlqs8t1", "divlqs8t1"}
+	one := []string{"inc", "dec"}
+	flags := [][]string{nil, {"onlydestregs"}, {"onlysrcregs"}, {"onlydestregs", "onlysrcregs"}}
+	emitReq := func(kind string, ops []string, rs int, progs [][]string) {
+		for vi, req := range progs {
+			for _, hw := range flags {
+				p, sos := procFor(append([]string{"rset", "j"}, ops...), "ha", 0)
+				p.Req = req
+				m := finalize(single(fmt.Sprintf("reqs:%s.%d", kind, vi), rs, p, sos, "iverilog"))
+				m.HwOpt = hw
+				emit(m)
+			}
+		}
+	}
+	for _, o := range two {
+		rs := 32
+		if strings.Contains(o, "16") || strings.Contains(o, "lqs") || strings.Contains(o, "fps") {
+			rs = 16
+		}
+		progs := [][]string{
+			{"rset r0 1", "rset r1 2", o + " r0 r1"},                // r0 only a destination, r1 only a source
+			{"rset r2 1", o + " r1 r0", o + " r2 r3", o + " r3 r3"}, // several, one register on both sides
+		}
+		if !thorough {
+			progs = progs[:1+len(o)%2]
+		}
+		emitReq(o, []string{o}, rs, progs)
+	}
+	for _, o := range one {
+		emitReq(o, []string{o}, 8, [][]string{{"rset r0 1", o + " r2"}, {o + " r0", o + " r3"}})
+	}
+	emitReq("jz", []string{"jz", "inc"}, 8, [][]string{{"rset r1 1", "inc r1", "jz r1 0"}})
+	emitReq("mix", []string{"divp", "multp", "addp", "inc", "dec", "jz"}, 16,
+		[][]string{{"rset r0 4", "rset r1 2", "divp r0 r1", "multp r2 r0", "addp r3 r3", "inc r1", "dec r2", "jz r3 0"}})
+}
+
+// genSameDomain: several processors built from ONE domain with differing shared-object attachments
+// (Write_verilog writes the processor's constraint string into the shared domain object before every
+// processor): the earlier attached and the later not, the reverse, first and last of three
+func genSameDomain(thorough bool) {
+	seen := map[string]bool{}
+	for _, so := range soKinds {
+		kind := strings.SplitN(so, ":", 2)[0]
+		if seen[kind] || kind == "vtextmem" || kind == "kbd" {
+			// kbd without k2r shows two more symptoms of the listed kbd defect (`k0empty` not declared in pN,
+			// `0'd0` in k0.v) whose texts are not in its signature: left out here
+			continue
+		}
+		seen[kind] = true
+		attach := [][]int{{0}, {1}, {0, 2}}
+		if thorough {
+			attach = append(attach, []int{1, 2}, []int{2})
+		}
+		for ai, att := range attach {
+			np := 2
+			if att[len(att)-1] == 2 {
+				np = 3
+			}
+			s := &spec{Kind: fmt.Sprintf("samedom:%s:%v/%d", kind, att, np), Rsize: 8, Flavor: "iverilog", Sos: []string{so}}
+			p, _ := procFor([]string{"rset", "inc", "j"}, "ha", 0) // no opcode of the kind: the header follows the attachment only
+			s.Procs = []procSpec{p}
+			for i := 0; i < np; i++ {
+				s.ProcDom = append(s.ProcDom, 0)
+			}
+			for _, a := range att {
+				s.Links = append(s.Links, [2]int{a, 0})
+			}
+			_ = ai
+			emit(finalize(s))
+		}
+	}
+}
+
 func pickN(r *common.Rng, xs []string, k int) []string {
 	ys := append([]string{}, xs...)
 	for i := len(ys) - 1; i > 0; i-- {
@@ -660,6 +742,10 @@ func gen(thorough bool) {
 	genDynVariants(thorough)
 	// (4f) the comment option on fan-out / unconnected topologies
 	genCommented()
+	// (4h) requirement sets recorded x hardware-optimisation flags
+	genReqs(thorough)
+	// (4i) several processors of one domain with differing shared-object attachments
+	genSameDomain(thorough)
 	// (5) ports without IO opcodes (the CLIs let the user choose N and M freely)
 	{
 		p := procSpec{R: 2, N: 2, M: 0, O: 4, Mode: "ha", Ops: []string{"inc", "j"}}
